@@ -135,13 +135,13 @@ Example C01_example_block :
      [(2, 3)]) /\
   results (exec_block ex_interp impl_head env_rev ex_state ex_block) =
   results (exec_block ex_interp impl_head env_id ex_state ex_block).
-Proof. exact ex_block_result. Qed.
+Proof. split; vm_compute; reflexivity. Qed.
 
 (* the ambient inputs are live: the mempool's decision on the same transaction differs between the two nodes *)
 Example C01_example_mempool_differs :
   checktx_admits env_id ex_state (ex_tx 0 false None) = true /\
   checktx_admits env_rev ex_state (ex_tx 0 false None) = false.
-Proof. exact checktx_depends_on_node_config. Qed.
+Proof. split; vm_compute; reflexivity. Qed.
 
 (* validators 1 and 2 tie on tokens: the operator decides; hypotheses of the sort theorems hold for them *)
 Example C01_example_validators :
@@ -150,9 +150,6 @@ Example C01_example_validators :
   pick_validator (filter v_bonded ex_vals) [mkVal 2 (10 ^ 18) true; mkVal 0 (3 * 10 ^ 18) true; mkVal 1 (10 ^ 18) true]
     = Some (mkVal 1 (10 ^ 18) true).
 Proof.
-  split; [|split; [|split; vm_compute; reflexivity]].
-  - repeat constructor; cbn; intuition discriminate.
-  - intros a b Ha Hb Ht Ho. cbn in Ha, Hb.
-    repeat (destruct Ha as [<-|Ha]; [repeat (destruct Hb as [<-|Hb]; [try reflexivity; cbn in Ho; discriminate|]); contradiction|]).
-    contradiction.
+  destruct (distinct_ops ex_vals ex_vals_distinct) as [ND KI].
+  split; [exact ND | split; [exact KI | split; vm_compute; reflexivity]].
 Qed.
